@@ -30,14 +30,6 @@ def COutcome.clean (o : COutcome) : Bool :=
   o.stop == some .ok && o.res == Residue.empty && o.make.isSome && !o.active &&
   o.released.all (fun i => o.released.count i == 1)
 
-/-- the race: stop() raised from `unregister_message_handler`, the maker returned a proxy, the new object's
-thread and handler are left in a stopped context and it was never released -/
-def COutcome.race (o : COutcome) : Bool :=
-  o.stop == some (.exc .unknownName) && o.make == some .ok && !o.active &&
-  o.res.mgrs.length == 1 && o.res.handlers.length == 1 && o.res.objMap.isEmpty &&
-  o.res.mgrs.all (fun m => !o.released.contains m.id)
-
-
 /-- the maker thread alone -/
 def runM (a : MakeArgs) : Nat → Ctx × MPc → Ctx × MPc
   | 0, x => x
